@@ -15,7 +15,7 @@ PREDS_C16 = ["FailedOnlyPayer", "OnlyPayerHash", "NoOutputOnFailure", "StatusCon
              "FrameOutput", "ControlFlow"]
 
 BASE = dict(Users='{"a", "b", "c"}', Contracts='{"x", "y"}', Ghosts='{"g"}', Keys='{"k1", "k2"}',
-            Prices="{0, 1, 2}", MsgLen="6", CallLen="37")
+            Prices="{0, 1, 2}", MsgLen="6", CallLen="37", MidPrice="TRUE")
 
 # chain configurations: step costs of the genesis (constants of the specification) and the
 # environment variables that make the harness build the same chain
@@ -74,16 +74,18 @@ def features(b):
             ntx = 0
         else:
             f.add("op:" + s["op"])
+            if s["op"] == "price" and ntx > 0:
+                f.add("price-change-inside-block")
     return f
 
 
 REQUIRED = ["code:ok", "code:balance", "code:fail", "charge-loop:rollback", "charge-loop:price0",
             "ok-with-logs", "ok-with-failed-charge-inside", "failed-after-mutation", "nested-depth-2",
             "to-contract-without-code", "kind:transfer", "kind:message", "kind:call", "kind:call:failed",
-            "blocks-of-1", "blocks-of-2", "blocks-of-3", "op:price", "op:fund"]
+            "blocks-of-1", "blocks-of-2", "blocks-of-3", "op:price", "op:fund", "price-change-inside-block"]
 
 
-def generate(ctx, chain, *, bfs, walks, wdepth, maxtx=3, par=1):
+def generate(ctx, chain, *, bfs, walks, wdepth, maxtx=3, par=1, users=None):
     """BFS over the transaction shapes (Gen_TxExec) and random walks (Sim_TxExec, `par` TLC
     processes with seeds derived from ctx.seed)."""
     from concurrent.futures import ThreadPoolExecutor
@@ -95,7 +97,7 @@ def generate(ctx, chain, *, bfs, walks, wdepth, maxtx=3, par=1):
         def sim(k):
             return ctx.behaviours("txexec", "Sim_TxExec", "Sim_TxExec.cfg",
                                   constants=consts(chain, MaxTx=maxtx, MaxOps=wdepth, Depth=wdepth,
-                                                   SimCBals="{0, 1, 3}", **CHAINS[chain]["bals"]),
+                                                   SimCBals="{0, 1, 3}", **dict(CHAINS[chain]["bals"], **(users or {}))),
                                   simulate="num=%d" % max(1, walks // par), depth=4 * wdepth,
                                   seed=ctx.seed * 16 + k, timeout=2400)
         if par <= 1:
@@ -144,7 +146,7 @@ def replay_and_validate(ctx, chain, allb, preds, label):
                 trace.append(blk)
     if not trace:
         raise ctx_error("no block was executed")
-    cs = consts(chain, MaxTx=3, MaxOps=0, FundVals="{}")
+    cs = consts(chain, MaxTx=3, MaxOps=0, FundVals="{}", Users='{"a", "b", "c", "d"}')
     for k in ("WithMsg", "MsgLen", "CallLen"):
         cs.pop(k, None)
     import vlib
@@ -209,7 +211,7 @@ def run_pipeline(ctx, preds, what):
         replay_and_validate(ctx, d.get("chain", "plain"), [d["behaviour"]], preds, "replay")
         return finish(ctx, what, 1, 0, 0)
     # 1. exhaustive model check (all properties of the model + binding consistency)
-    mc = ctx.pick(dict(MaxTx=2, MaxOps=3, MCFrom='{"a"}', MCBals="{3, 9}", MCCBals="{2}", MCValues="{0, 1}",
+    mc = ctx.pick(dict(MaxTx=2, MaxOps=3, MCFrom='{"a"}', MCBals="{4}", MCCBals="{2}", MCValues="{0, 1}",
                        MCExtras="{0, 3}", FundVals="{1}"),
                   dict(MaxTx=2, MaxOps=3, MCFrom='{"a", "b"}', MCBals="{0, 3, 9}", MCCBals="{0, 2}",
                        MCValues="{0, 1}", MCExtras="{0, 2, 5}", FundVals="{3}"))
@@ -223,7 +225,8 @@ def run_pipeline(ctx, preds, what):
                         MCExtras="{0, 1, 2, 4, 7}"))
     par = ctx.pick(1, 4)
     allb = generate(ctx, "plain", bfs=bfs, walks=ctx.pick(120, 1600), wdepth=ctx.pick(12, 16),
-                    maxtx=ctx.pick(3, 4), par=par)
+                    maxtx=ctx.pick(3, 4), par=par,
+                    users=ctx.pick(None, dict(Users='{"a", "b", "c", "d"}', SimBals="{0, 3, 6, 14}")))
     feats = require(allb, REQUIRED, "plain")
     ctx.cov.update({"feature:" + f: 1 for f in sorted(feats)})
     # 3./4. replay + trace validation
@@ -232,8 +235,8 @@ def run_pipeline(ctx, preds, what):
     if not ctx.quick():
         # other chain configurations: input bytes cost steps (out of step before the call);
         # revision 9 with an open BTP network (contracts send BTP messages) and a low invoke limit
-        for chain, n, need in (("input", 480, ["code:step", "code:ok", "code:fail", "charge-loop:rollback"]),
-                               ("btp", 480, ["ok-with-msgs", "code:ok", "code:fail", "charge-loop:rollback"])):
+        for chain, n, need in (("input", 480, ["code:step", "code:ok", "code:fail", "failed-after-mutation"]),
+                               ("btp", 480, ["ok-with-msgs", "code:ok", "code:fail", "failed-after-mutation"])):
             bs = generate(ctx, chain, bfs=None, walks=n, wdepth=14, par=par)
             require(bs, need, chain)
             extra += len(bs)
